@@ -135,29 +135,37 @@ def onAttest (db : Db) (pk : Bytes) (r : AttReq) (f : Faults) : Verdict × Db :=
   | some st =>
     match attChecks r st with
     | (.approved, st') =>
-      let (ok, db') := storeOne db (attKey pk) (encodeAtt st') f
-      (if ok then .approved else .failed, db')
+      let w := storeOne db (attKey pk) (encodeAtt st') f
+      (if w.1 then .approved else .failed, w.2)
     | (v, _) => (v, db)
 
-/-- fetch all states, stop at the first error -/
-def fetchAtts (db : Db) (f : Faults) : (i : Nat) → List Bytes → Option (List AttState)
+/-- Fetch and check every item of a batch (`fetchSignBeaconAttestationStates` followed by the check
+    loop; the checks are pure, so fetching and checking item by item is the same thing).
+    `none` = some fetch failed.  Each item carries an arbitrary payload `α` (the full request). -/
+def evalBatch {α : Type} (req : α → AttReq) (db : Db) (f : Faults) :
+    Nat → List (Bytes × α) → Option (List (Bytes × α × Verdict × AttState))
   | _, [] => some []
-  | i, pk :: rest =>
+  | i, (pk, a) :: rest =>
     match fetchAtt db pk (f.fetchFail.contains i) with
     | none => none
-    | some st => (fetchAtts db f (i + 1) rest).map (st :: ·)
+    | some st =>
+      match evalBatch req db f (i + 1) rest with
+      | none => none
+      | some l => some ((pk, a, attChecks (req a) st) :: l)
 
-/-- `OnSignBeaconAttestations` (batch path) after its length/nil checks: every fetched state is
-    written back, approved or not. -/
-def onAttestBatch (db : Db) (items : List (Bytes × AttReq)) (f : Faults) : List Verdict × Db :=
-  match fetchAtts db f 0 (items.map (·.1)) with
-  | none => (items.map (fun _ => .failed), db)
-  | some sts =>
-    let rs := (items.zip sts).map (fun (p : (Bytes × AttReq) × AttState) => attChecks p.1.2 p.2)
-    let kvs := (items.zip rs).map
-      (fun (p : (Bytes × AttReq) × (Verdict × AttState)) => (attKey p.1.1, encodeAtt p.2.2))
-    let (ok, db') := storeMany db kvs f
-    (if ok then rs.map (·.1) else items.map (fun _ => .failed), db')
+/-- the records a batch writes back: every fetched state, approved or not -/
+def batchKvs {α : Type} (evs : List (Bytes × α × Verdict × AttState)) : List (Bytes × Bytes) :=
+  evs.map (fun e => (attKey e.1, encodeAtt e.2.2.2))
+
+/-- `OnSignBeaconAttestations` (batch path) after its length/nil checks.
+    Result `none` = every position FAILED; otherwise the per-item verdicts. -/
+def onAttestBatch {α : Type} (req : α → AttReq) (db : Db) (items : List (Bytes × α)) (f : Faults) :
+    Option (List (Bytes × α × Verdict)) × Db :=
+  match evalBatch req db f 0 items with
+  | none => (none, db)
+  | some evs =>
+    let w := storeMany db (batchKvs evs) f
+    (if w.1 then some (evs.map (fun e => (e.1, e.2.1, e.2.2.1))) else none, w.2)
 
 /-! ## Proposals -/
 
@@ -175,8 +183,8 @@ def onPropose (db : Db) (pk : Bytes) (r : PropReq) (f : Faults) : Verdict × Db 
   | some st =>
     if st ≥ 0 ∧ r.slot ≤ u64 st then (.denied, db)
     else
-      let (ok, db') := storeOne db (propKey pk) (encodeProp (i64 r.slot)) f
-      (if ok then .approved else .failed, db')
+      let w := storeOne db (propKey pk) (encodeProp (i64 r.slot)) f
+      (if w.1 then .approved else .failed, w.2)
 
 /-- unfixed proposal rule (no MaxInt64 guard), for the counterexample only -/
 def onProposeLegacy (db : Db) (pk : Bytes) (r : PropReq) : Verdict × Db :=
